@@ -54,15 +54,21 @@ Definition remove_key {A} (k : Z) (m : list (Z * A)) : list (Z * A) :=
 Definition memz (k : Z) (l : list Z) : bool := existsb (Z.eqb k) l.
 
 (* ------------------------------------------------------------------ wlog.Checkpoint *)
+(* THE time filter of Checkpoint, shared by every record kind that carries timestamps: float samples
+   (`s.T >= mint`), histogram / float histogram / custom-bucket histogram / custom-bucket float histogram
+   samples (`h.T >= mint`, `fh.T >= mint`), exemplars (`e.T >= mint`), tombstone intervals (`iv.Maxt >= mint`) *)
+Definition keep_t (t mint : Z) : bool := mint <=? t.
+
 Section CP.
   Variable keep : ref -> bool.
   Variable mint : Z.
 
   Definition cp_series (l : list (ref * lab)) := filter (fun s => keep (fst s)) l.
-  Definition cp_samples (l : list (ref * Z * Z)) := filter (fun s => mint <=? snd (fst s)) l.
+  (* samples of any kind k (0 float, 1 histogram, 2 float histogram, 3 NHCB, 4 float NHCB) and exemplars *)
+  Definition cp_samples (l : list (ref * Z * Z)) := filter (fun s => keep_t (snd (fst s)) mint) l.
   (* a tombstone is dropped together with its series record, or once all its intervals are below mint *)
   Definition cp_stones (l : list (ref * list (Z * Z))) :=
-    filter (fun s => keep (fst s) && existsb (fun iv => mint <=? snd iv) (snd s)) l.
+    filter (fun s => keep (fst s) && existsb (fun iv => keep_t (snd iv) mint) (snd s)) l.
 
   (* one record of the input; None = "all contents discarded" (len(buf[start:]) == 0) *)
   Definition cp_rec (r : record) : option record :=
@@ -421,13 +427,56 @@ Definition agent_truncate (a : agent) (mint : Z) (gone : list ref) : agent :=
   end.
 
 (* a history of the agent DB: appended records, truncations (series that DB.gc marked deleted = oracle),
-   segment rollover, and reopening (series / deleted as observed after replay — the agent's replay
-   bookkeeping is not modelled) *)
+   segment rollover, and reopening (with db.series / db.deleted as observed after the replay) *)
 Inductive aevent :=
 | ALog (l : list (Z * record))
 | ATruncate (mint : Z) (gone : list ref)
 | ARoll
 | ARestart (series : list ref) (deleted : list (ref * Z)).
+
+(* agent DB.replayWAL / loadWAL: the checkpoint is loaded with currentSegmentOrCheckpoint = its index, then
+   every segment above it with its own number.  First series record of a label set wins; a later one is a
+   duplicate ref: db.deleted[ref] = current segment (if not already higher), and every float / histogram /
+   float histogram sample of a duplicate ref moves that entry up to its segment.  Exemplars, tombstones are
+   skipped.  db.deleted starts empty. *)
+Record areplay := mkAR {
+  ar_labs : list (lab * ref);      (* db.series by label set: the canonical ref *)
+  ar_series : list ref;            (* db.series refs, in creation order *)
+  ar_dup : list ref;               (* duplicateRefToValidRef keys *)
+  ar_deleted : list (ref * Z)
+}.
+
+Definition ar_series_rec (cur : Z) (st : areplay) (s : ref * lab) : areplay :=
+  match lookup (snd s) (ar_labs st) with
+  | None => mkAR (upsert (snd s) (fst s) (ar_labs st)) (ar_series st ++ [fst s]) (ar_dup st) (ar_deleted st)
+  | Some _ =>
+      mkAR (ar_labs st) (ar_series st) (fst s :: ar_dup st)
+           (match lookup (fst s) (ar_deleted st) with
+            | Some seg => if seg <=? cur then upsert (fst s) cur (ar_deleted st) else ar_deleted st
+            | None => if 0 <=? cur then upsert (fst s) cur (ar_deleted st) else ar_deleted st   (* zero value *)
+            end)
+  end.
+
+Definition ar_sample (cur : Z) (st : areplay) (s : ref * Z * Z) : areplay :=
+  let r := fst (fst s) in
+  if memz r (ar_dup st) then
+    match lookup r (ar_deleted st) with
+    | Some seg => if seg <=? cur then mkAR (ar_labs st) (ar_series st) (ar_dup st) (upsert r cur (ar_deleted st)) else st
+    | None => st
+    end
+  else st.
+
+Definition ar_rec (st : areplay) (sr : Z * record) : areplay :=
+  match snd sr with
+  | RSeries l => fold_left (ar_series_rec (fst sr)) l st
+  | RSamples _ l => fold_left (ar_sample (fst sr)) l st     (* float, histogram and float histogram alike *)
+  | _ => st
+  end.
+
+Definition agent_replay (w : wal) : areplay :=
+  fold_left ar_rec
+    (map (fun r => (w_cpidx w, r)) (w_cp w) ++ filter (fun sr => w_cpidx w <? fst sr) (w_segs w))
+    (mkAR [] [] [] []).
 
 Definition astep (a : agent) (e : aevent) : agent :=
   match e with
@@ -435,7 +484,9 @@ Definition astep (a : agent) (e : aevent) : agent :=
                       (wal_log (a_wal a) l)
   | ATruncate mint gone => agent_truncate a mint gone
   | ARoll => mkAgent (a_series a) (a_deleted a) (wal_next_segment (a_wal a))
-  | ARestart ser del => mkAgent ser del (wal_next_segment (a_wal a))
+  | ARestart _ _ =>   (* the event carries what the implementation had after the reopen; agree compares *)
+      let ar := agent_replay (a_wal a) in
+      mkAgent (ar_series ar) (ar_deleted ar) (wal_next_segment (a_wal a))
   end.
 
 Definition agent_empty : agent := mkAgent [] [] wal_empty.
